@@ -205,6 +205,22 @@ class ProgramModel:
             for b in ci.node.bases:
                 if isinstance(b, ast.Name) and b.id in self.classes:
                     ci.bases.append(b.id)
+        # canonical form (efa/canon.py): constants substituted, private helpers inlined, temporaries folded
+        if os.environ.get("EFA_NO_CANON") != "1":
+            from .canon import Canonicaliser, substitute_constants
+            n_const = sum(substitute_constants(tree) for _, tree, _ in self.modules.values())
+            self.canon_stats = Canonicaliser(self).run()
+            self.canon_stats["constants_substituted"] = n_const
+            self.functions = {}
+            for m, (rel, tree, _) in self.modules.items():
+                self.n_temps_folded += fold_single_use_temporaries(tree)
+                for n in ast.walk(tree):
+                    for ch in ast.iter_child_nodes(n):
+                        ch._parent = n
+                for n in tree.body:
+                    if isinstance(n, ast.FunctionDef):
+                        self.functions.setdefault(n.name, (m, n))
+            self._mro = {}
 
     def path_of(self, cls):
         return self.classes[cls].path
